@@ -140,7 +140,7 @@ CHECKS.update({
              "theta I (induction on the pairs over a recursively extended index type), compact_secant; invM_factorisation / bmv_is_product (Props/C10Factor: the product of the two triangular factors the code builds from sqrt(D), 1/sqrt(D), L and the Cholesky factor J IS [[-D, L^T],[L, theta S^T S]], so two exact triangular solves return M v). The floating-point computation (triangular factors in "
              "the code) is decided by correspondence: bfgsmats.py vs the "
              "Lean Float compact model vs an independent dense recursion on random histories with rejected pairs, full memory, maxcor 1..12, and forced "
-             "rebuilds after the stored gradients were rewritten (the update_fun_def path of main.py), also with a rejected candidate; the product with the middle matrix through the code's triangular factors (bmv) is compared with the model's elimination (whose list form — the one the theorems are about — and array form must agree bit for bit), and the share of explored matrices whose pivots do not vanish is reported.",
+             "rebuilds after the stored gradients were rewritten (the update_fun_def path of main.py), also with a rejected candidate; kernel_matrix_is_bfgs (Props/C10Kernel, via Proofs/CompactBridge + CompactKernel): the very lists the model's kernels are given (buildW, buildMinv — columns [Y, theta S], middle matrix [[-D, L^T],[L, theta S^T S]]) are the block form of the compact representation, which is the bordered form of the Byrd-Nocedal-Schnabel proof up to the order of the columns (an explicit bijection of the index types), so with Mm any left inverse of the matrix of buildMinv, theta I - W Mm W^T IS the dense BFGS recursion of the stored pairs and is symmetric positive definite when every pair has s != 0, s.y > 0 and theta > 0; the product with the middle matrix through the code's triangular factors (bmv) is compared with the model's elimination (whose list form — the one the theorems are about — and array form must agree bit for bit), and the share of explored matrices whose pivots do not vanish is reported.",
         note=KERNEL_NOTE, technique="Lean 4 proof (list bookkeeping; BFGS update SPD/secant and compact = dense recursion by Mathlib matrix algebra, induction on the pair list) + history differential (implementation vs compact model vs dense recursion)",
         design_ref="DESIGN.md §4 C10"),
     "C11": dict(
